@@ -5,7 +5,7 @@ from .. import ief, triage, tables, fde, reglang
 from ..flow import GuardMap
 from ..model import AnalysisError, norm
 from .c06 import kinds_and_methods, PCV
-from .common import dep_closure, dep_closure_at, names_in
+from .common import guard_requires, dep_closure, dep_closure_at, names_in
 
 ROOTS = ['discover_df', 'verify_df', 'detect_df', 'DatasetConstraints.to_json', 'DatasetConstraints.load']
 
@@ -259,9 +259,12 @@ def close(run, p, km, gm):
         ch = gmap.chain(c) or ()
         eqs = []
         for g in ch:
-            if g.kind == 'if' and g.pol:
-                for x in ast.walk(g.test):
-                    if isinstance(x, ast.Compare) and isinstance(x.ops[0], ast.Eq) and len(x.ops) == 1:
+            if g.kind != 'if':
+                continue
+            # equalities the guard needs in order to let the constructor run: `a == b` taken, `not a == b` / `a != b` not taken
+            for x in ast.walk(g.test):
+                if isinstance(x, ast.Compare) and len(x.ops) == 1 and isinstance(x.ops[0], (ast.Eq, ast.NotEq)):
+                    if guard_requires(g.test, g.pol, lambda e, pol, x=x: e is x and (pol == isinstance(x.ops[0], ast.Eq))):
                         eqs.append(calcs(dep_closure(dn, names_in(x)), gm))
         ver = km['no_duplicates'][0]
         t = tables.table(ver.node, tables.pick_result())
